@@ -462,6 +462,17 @@ NoStuckMessage ==
             \/ k.pf = "exited")
      /\ ((~k.stop /\ (cfg.N = 0 \/ k.ntaken < cfg.N) /\ (\A x \in Msgs : cbw[x] \in {"none", "rel"}))
             => k.ntaken = k.arrived)
+(* bounded-liveness halves of C05 as state predicates (time can only pass in quiescent  *)
+(* states, so "quiescent, deadline passed, not returned" is a reachable bad STATE iff   *)
+(* the deadline can be missed); the model analogue of the end-of-trace clauses          *)
+DeadlineBase == Max2(Max2(ShutdownT(obs), obs.lastDoneT), obs.lastTakeT)
+PromptReturn ==
+  (Quiescent /\ ~returned /\ ShutdownT(obs) >= 0 /\ AllTakenDone(cfg, obs))
+     => now < DeadlineBase + PollPeriod + Slack
+TimeoutReturn ==
+  (Quiescent /\ ~returned /\ ShutdownT(obs) >= 0 /\ cfg.W >= 0 /\ ~AllTakenDone(cfg, obs)
+     /\ now >= DeadlineBase + cfg.W + PollPeriod + Slack)
+     => (cfg.A > 0 /\ obs.nRun = cfg.A /\ "KF_C05_SaturatedNoTimeout" \in AllowedViol)
 TypeOK == /\ k.permits >= 0 /\ k.slots >= 0
           /\ k.ntaken <= k.arrived
 View == kvars
